@@ -21,25 +21,30 @@ vars == <<script, cfg, ns, nb, nin, l3, fin, pick>>
 \* its parameters in a second step keeps kinds with many parameter combinations from crowding out the others.
 
 Cfgs == [snd : {0, 2}, rcvS : {0, 1}, win0 : {1, 2, 50}, credit2 : {0, 2, 10}, aa2 : BOOLEAN, rcv2 : {0, 1},
-         shiftOut : {"0", "4294967290", "2147483648"}, dcOut : {"0", "4294967293"}, dcIn : {"0", "4294967292"}, mms : {0, 150}, buf : {1, 256}, mfs : {512, 4096}]
+         shiftOut : {"0", "4294967290", "2147483648"}, dcOut : {"0", "4294967293"}, dcIn : {"0", "4294967292"}, mms : {0, 150}, buf : {1, 256}, mfs : {512, 4096}, lbuf : {256}]
 Init == script = <<>> /\ cfg \in Cfgs /\ ns = 0 /\ nb = 0 /\ nin = 0 /\ l3 = "att" /\ fin = FALSE /\ pick = <<"none", 0>>
 
-Weight == [Send1 |-> 3, Send3 |-> 2, Await |-> 1, SFlow |-> 2, Grant |-> 3, Disp |-> 3, In |-> 4, App2 |-> 5, PSettle |-> 1, Cancel |-> 1, Close3 |-> 1, Att3 |-> 2]
-Possible(k) == CASE k = "Send3" -> l3 = "att" [] k = "Await" -> nb > 0 [] k = "Disp" -> ns > 0 [] k = "PSettle" -> nin > 0 /\ cfg.rcv2 = 1
+Weight == [Send1 |-> 3, Send3 |-> 2, Send13 |-> 1, InX |-> 2, Await |-> 1, SFlow |-> 2, Grant |-> 3, Disp |-> 3, In |-> 4, App2 |-> 5, PSettle |-> 1, Cancel |-> 1, Close3 |-> 1, Att3 |-> 2]
+Possible(k) == CASE k \in {"Send3", "Send13"} -> l3 = "att" [] k = "Await" -> nb > 0 [] k = "Disp" -> ns > 0 [] k = "PSettle" -> nin > 0 /\ cfg.rcv2 = 1
                  [] k = "Close3" -> l3 = "att" [] k = "Att3" -> l3 = "closed" [] OTHER -> TRUE
 Choose == pick[1] = "none" /\ \E k \in DOMAIN Weight : Possible(k) /\ \E i \in 1..Weight[k] : pick' = <<k, i>>
 Ev(e) == script' = Append(script, e) /\ pick' = <<"none", 0>>
 Is(k) == pick[1] = k
 Send1 == Is("Send1") /\ \E len \in {20, 330, 1100}, pre \in BOOLEAN : (pre => cfg.snd = 2) /\ Ev([k |-> "Send1", m |-> ns + 1, len |-> len, pre |-> pre]) /\ ns' = ns + 1 /\ nb' = nb + 1 /\ UNCHANGED <<cfg, nin, l3>>
 Send3 == Is("Send3") /\ \E len \in {20, 700} : Ev([k |-> "Send3", m |-> ns + 1, len |-> len]) /\ ns' = ns + 1 /\ UNCHANGED <<cfg, nb, nin, l3>>
+\* both sending links submit a several-frame message in the same scheduler turn (no settle in between): their frames may interleave
+Send13 == Is("Send13") /\ Ev([k |-> "Send13", m |-> ns + 1]) /\ ns' = ns + 2 /\ nb' = nb + 1 /\ UNCHANGED <<cfg, nin, l3>>
+\* a delivery on the second receiving link arrives between the frames of a delivery on the first one; the continuation repeats delivery-id and tag
+InX == Is("InX") /\ \E pre \in BOOLEAN : Ev([k |-> "TX", m |-> 201 + nin, pre |-> pre]) /\ nin' = nin + 2 /\ UNCHANGED <<cfg, ns, nb, l3>>
 Await == Is("Await") /\ \E n \in 0..(nb - 1) : Ev([k |-> "Await", n |-> n]) /\ UNCHANGED <<cfg, ns, nb, nin, l3>>
 SFlow == Is("SFlow") /\ \E w \in {0, 1, 2, 3, 50}, lag \in {0, 1} : Ev([k |-> "SFlow", w |-> w, lag |-> lag]) /\ UNCHANGED <<cfg, ns, nb, nin, l3>>
 Grant == Is("Grant") /\ \E l \in {1, 3}, lc \in {0, 1, 2, 5, 6}, lag \in {0, 1}, mode \in {"plain", "plain", "plain", "drain", "echo", "unset"} :
-           (l = 3 => l3 = "att") /\ Ev([k |-> "Grant", l |-> l, lc |-> lc, lag |-> IF mode = "plain" THEN lag ELSE 0, drain |-> mode = "drain", echo |-> mode = "echo", unset |-> mode = "unset"]) /\ UNCHANGED <<cfg, ns, nb, nin, l3>>
+           \E w \in {-1, -1, 0, 3, 50} :
+           (l = 3 => l3 = "att") /\ Ev([k |-> "Grant", l |-> l, lc |-> lc, w |-> w, lag |-> IF mode = "plain" THEN lag ELSE 0, drain |-> mode = "drain", echo |-> mode = "echo", unset |-> mode = "unset"]) /\ UNCHANGED <<cfg, ns, nb, nin, l3>>
 Disp == Is("Disp") /\ \E a \in 0..(ns - 1), w \in {0, 1, 2}, st \in {"accepted", "rejected", "released", "modified", "received"}, settled \in BOOLEAN :
            (st = "received" => ~settled) /\ Ev([k |-> "Disp", a |-> a, b |-> a + w, st |-> st, settled |-> settled]) /\ UNCHANGED <<cfg, ns, nb, nin, l3>>
-In == Is("In") /\ \E shape \in {"T1", "T1", "T2", "T3", "TAbort"}, pre \in BOOLEAN : Ev([k |-> shape, m |-> 201 + nin, pre |-> pre]) /\ nin' = nin + 1 /\ UNCHANGED <<cfg, ns, nb, l3>>
-App2 == Is("App2") /\ \E e \in {"Recv", "Recv2", "Recv3", "Acc", "Acc2", "Rej", "Rel", "Mod", "AccAll", "SetCredit1", "SetCredit3", "Drain2"} : Ev([k |-> e]) /\ UNCHANGED <<cfg, ns, nb, nin, l3>>
+In == Is("In") /\ \E shape \in {"T1", "T1", "T2", "T3", "TAbort", "TBig"}, pre \in BOOLEAN : Ev([k |-> shape, m |-> 201 + nin, pre |-> pre]) /\ nin' = nin + 1 /\ UNCHANGED <<cfg, ns, nb, l3>>
+App2 == Is("App2") /\ \E e \in {"Recv", "Recv2", "Recv3", "Recv4", "Acc", "Acc2", "Rej", "Rel", "Mod", "AccAll", "SetCredit1", "SetCredit3", "Drain2"} : Ev([k |-> e]) /\ UNCHANGED <<cfg, ns, nb, nin, l3>>
 \* the sender's settling disposition for what the receiving link has disposed of (rcv-settle-mode second)
 PSettle == Is("PSettle") /\ \E a \in 0..(nin - 1), w \in {0, 1, 5} : Ev([k |-> "PSettle", a |-> a, b |-> a + w]) /\ UNCHANGED <<cfg, ns, nb, nin, l3>>
 Cancel == Is("Cancel") /\ \E l \in {"L2", "L3"} : Ev([k |-> "Cancel", l |-> l]) /\ UNCHANGED <<cfg, ns, nb, nin, l3>>
@@ -48,25 +53,28 @@ Att3 == Is("Att3") /\ Ev([k |-> "Att3"]) /\ l3' = "att" /\ UNCHANGED <<cfg, ns, 
 \* (the simulator evaluates invariants on every candidate successor: the script is printed from the one state that follows the last event)
 Finish == Len(script) = Depth /\ ~fin /\ fin' = TRUE /\ UNCHANGED <<script, cfg, ns, nb, nin, l3, pick>>
 Next == Finish \/ (Len(script) < Depth /\ UNCHANGED fin /\
-                   ((Choose /\ UNCHANGED <<script, cfg, ns, nb, nin, l3>>) \/ Send1 \/ Send3 \/ Await \/ SFlow \/ Grant \/ Disp \/ In \/ App2 \/ PSettle \/ Cancel \/ Close3 \/ Att3))
+                   ((Choose /\ UNCHANGED <<script, cfg, ns, nb, nin, l3>>) \/ Send1 \/ Send3 \/ Send13 \/ InX \/ Await \/ SFlow \/ Grant \/ Disp \/ In \/ App2 \/ PSettle \/ Cancel \/ Close3 \/ Att3))
 Spec == Init /\ [][Next]_vars
 
 \* ---------------------------------------------------------------- expansion to script events
 CH == 3
 SessFlow(nii, iw) == [e |-> "PFrame", perf |-> "flow", ch |-> CH, ech |-> 0, f |-> [nii |-> nii, iw |-> iw, noi |-> [sent |-> 0], ow |-> 100]]
-LFlow(h, dc, lc, drain, echo) == [e |-> "PFrame", perf |-> "flow", ch |-> CH, ech |-> 0,
-                                   f |-> [nii |-> [seen |-> 0], iw |-> [keep |-> TRUE], noi |-> [sent |-> 0], ow |-> 100, h |-> h, dc |-> dc, lc |-> lc, drain |-> drain, echo |-> echo]]
-Xfer(first, more, aborted, m, len, off, n, fields, pre) ==
+LFlow(h, dc, lc, drain, echo, w) == [e |-> "PFrame", perf |-> "flow", ch |-> CH, ech |-> 0,
+                                   f |-> [nii |-> [seen |-> 0], iw |-> IF w < 0 THEN [keep |-> TRUE] ELSE w, noi |-> [sent |-> 0], ow |-> 100, h |-> h, dc |-> dc, lc |-> lc, drain |-> drain, echo |-> echo]]
+XferH(h, first, more, aborted, m, len, off, n, fields, pre) ==
   [e |-> "PFrame", perf |-> "transfer", ch |-> CH, guard |-> TRUE,
-   f |-> [h |-> 6, did |-> IF first \/ fields = "repeat" THEN [auto |-> TRUE] ELSE -1,
+   f |-> [h |-> h, did |-> IF first \/ fields = "repeat" THEN [auto |-> TRUE] ELSE -1,
           tagn |-> IF first \/ fields = "repeat" THEN 1 ELSE -1, tag |-> [auto |-> TRUE], fmt |-> IF first \/ fields = "repeat" THEN 0 ELSE -1,
           settled |-> IF first THEN (IF pre THEN "t" ELSE "f") ELSE "none", more |-> more, aborted |-> aborted],
    msg |-> [m |-> m, len |-> len, off |-> off, n |-> n, shape |-> "full"]]
+Xfer(first, more, aborted, m, len, off, n, fields, pre) == XferH(6, first, more, aborted, m, len, off, n, fields, pre)
 Att(l, h, eutSender, cfgC, cfgL, pf) ==
   (IF Side = "client" THEN << [e |-> IF eutSender THEN "AAttachS" ELSE "AAttachR", l |-> l, s |-> "s1", cfg |-> cfgC] >>
    ELSE << [e |-> "AAcceptLink", l |-> l, s |-> "s1", cfg |-> cfgL] >>)
   \o << [e |-> "PFrame", perf |-> "attach", ch |-> CH, f |-> pf] >>
-Att3Ev == Att("L3", 7, TRUE, [snd |-> 0, rcv |-> 0, idc |-> 500], [idc |-> 500], [name |-> "L3", h |-> 7, role |-> "r", snd |-> 0, rcv |-> 0])
+Att3Ev == << [e |-> (IF Side = "client" THEN "AAttachS" ELSE "AAcceptLink"), l |-> "L3", s |-> "s1", cfg |-> [snd |-> 0, rcv |-> 0, idc |-> 500]],
+             [e |-> "PFrame", perf |-> "attach", ch |-> CH, needs_prev |-> (Side = "client"),
+              f |-> [name |-> "L3", h |-> 7, role |-> "r", snd |-> 0, rcv |-> 0, mms |-> IF cfg.mms > 0 THEN cfg.mms ELSE -1]] >>
 Prefix ==
   << [e |-> "Shifts", out |-> cfg.shiftOut, inn |-> 0, dc_out |-> cfg.dcOut, dc_in |-> cfg.dcIn] >> \o
   (IF Side = "client"
@@ -78,21 +86,29 @@ Prefix ==
            [e |-> "PFrame", perf |-> "begin", ch |-> CH, f |-> [rch |-> -1, noi |-> 0, iw |-> cfg.win0, ow |-> 100]] >>)
   \o Att("L1", 5, TRUE, [snd |-> cfg.snd, rcv |-> cfg.rcvS, idc |-> 1000], [idc |-> 1000],
          [name |-> "L1", h |-> 5, role |-> "r", snd |-> cfg.snd, rcv |-> cfg.rcvS, mms |-> IF cfg.mms > 0 THEN cfg.mms ELSE -1])
-  \o Att("L2", 6, FALSE, [snd |-> 2, rcv |-> cfg.rcv2, credit |-> IF cfg.credit2 = 0 THEN -1 ELSE cfg.credit2, auto_accept |-> cfg.aa2],
+  \o Att("L2", 6, FALSE, [snd |-> 2, rcv |-> cfg.rcv2, credit |-> IF cfg.credit2 = 0 THEN -1 ELSE cfg.credit2, auto_accept |-> cfg.aa2, lbuf |-> cfg.lbuf],
          [credit |-> IF cfg.credit2 = 0 THEN -1 ELSE cfg.credit2, auto_accept |-> FALSE],
          [name |-> "L2", h |-> 6, role |-> "s", snd |-> 2, rcv |-> cfg.rcv2, idc |-> 1000])
+  \o Att("L4", 8, FALSE, [snd |-> 2, rcv |-> 0, credit |-> 10, auto_accept |-> TRUE, lbuf |-> cfg.lbuf], [credit |-> 10, auto_accept |-> FALSE],
+         [name |-> "L4", h |-> 8, role |-> "s", snd |-> 2, rcv |-> 0, idc |-> 0])
   \o Att3Ev
 Conc(e) ==
   CASE e.k = "Send1" -> << [e |-> "ASend", l |-> "L1", m |-> e.m, len |-> e.len, batchable |-> TRUE, settled |-> IF cfg.snd = 2 THEN e.pre ELSE FALSE] >>
     [] e.k = "Send3" -> << [e |-> "ASend", l |-> "L3", m |-> e.m, len |-> e.len] >>
+    [] e.k = "Send13" -> << [e |-> "ASend", l |-> "L1", m |-> e.m, len |-> 1100, batchable |-> TRUE, settled |-> FALSE, nosettle |-> TRUE],
+                             [e |-> "ASend", l |-> "L3", m |-> e.m + 1, len |-> 700] >>
     [] e.k = "Await" -> << [e |-> "AAwaitOutcome", nth |-> e.n] >>
     [] e.k = "SFlow" -> << SessFlow([seen |-> e.lag], e.w) >>
-    [] e.k = "Grant" -> << LFlow(IF e.l = 1 THEN 5 ELSE 7, IF e.unset THEN -1 ELSE [seen |-> e.lag], e.lc, e.drain, e.echo) >>
+    [] e.k = "Grant" -> << LFlow(IF e.l = 1 THEN 5 ELSE 7, IF e.unset THEN -1 ELSE [seen |-> e.lag], e.lc, e.drain, e.echo, e.w) >>
     [] e.k = "Disp" -> << [e |-> "PFrame", perf |-> "disposition", ch |-> CH, ech |-> 0,
                            f |-> [role |-> "r", first |-> [d |-> e.a], last |-> IF e.b = e.a THEN -1 ELSE [d |-> e.b], settled |-> e.settled, state |-> [k |-> e.st, cond |-> "", txn |-> <<>>]]] >>
     [] e.k = "T1" -> << Xfer(TRUE, FALSE, FALSE, e.m, 30, 0, -1, "omit", e.pre) >>
     [] e.k = "T2" -> << Xfer(TRUE, TRUE, FALSE, e.m, 200, 0, 17, "omit", e.pre), Xfer(FALSE, FALSE, FALSE, e.m, 200, 17, -1, "omit", e.pre) >>
     [] e.k = "T3" -> << Xfer(TRUE, TRUE, FALSE, e.m, 300, 0, 3, "omit", e.pre), Xfer(FALSE, TRUE, FALSE, e.m, 300, 3, 0, "repeat", e.pre), Xfer(FALSE, FALSE, FALSE, e.m, 300, 3, -1, "repeat", e.pre) >>
+    [] e.k = "TBig" -> << Xfer(TRUE, FALSE, FALSE, e.m, 900, 0, -1, "omit", e.pre) >>
+    [] e.k = "TX" -> << XferH(6, TRUE, TRUE, FALSE, e.m, 300, 0, 40, "omit", e.pre), XferH(8, TRUE, FALSE, FALSE, e.m + 1, 30, 0, -1, "omit", TRUE),
+                         XferH(6, FALSE, TRUE, FALSE, e.m, 300, 40, 60, "repeat", e.pre), XferH(6, FALSE, FALSE, FALSE, e.m, 300, 100, -1, "repeat", e.pre) >>
+    [] e.k = "Recv4" -> << [e |-> "ARecv", l |-> "L4"] >>
     [] e.k = "TAbort" -> << Xfer(TRUE, TRUE, FALSE, e.m, 200, 0, 50, "omit", e.pre), Xfer(FALSE, FALSE, TRUE, e.m, 200, 50, 0, "omit", e.pre) >>
     [] e.k \in {"Recv", "Recv2", "Recv3"} -> << [e |-> "ARecv", l |-> "L2"] >>
     [] e.k = "Acc2" -> << [e |-> "ADispose", l |-> "L2", d |-> <<0>>, state |-> "accept", all |-> FALSE] >>
@@ -117,8 +133,8 @@ Body(sc, i) == IF i > Len(sc) THEN <<>> ELSE Conc(sc[i]) \o Body(sc, i + 1)
 \* the window reopens, both sending links get ample credit, everything started is accepted and settled, every outcome is awaited
 RECURSIVE Awaits(_, _)
 Awaits(i, n) == IF i >= n THEN <<>> ELSE << [e |-> "AAwaitOutcome", nth |-> i] >> \o Awaits(i + 1, n)
-Suffix == << SessFlow([seen |-> 0], 50), LFlow(5, [seen |-> 0], 50, FALSE, FALSE) >>
-          \o (IF l3 = "att" THEN << LFlow(7, [seen |-> 0], 50, FALSE, FALSE) >> ELSE <<>>)
+Suffix == << SessFlow([seen |-> 0], 50), LFlow(5, [seen |-> 0], 50, FALSE, FALSE, -1) >>
+          \o (IF l3 = "att" THEN << LFlow(7, [seen |-> 0], 50, FALSE, FALSE, -1) >> ELSE <<>>)
           \o << SessFlow([seen |-> 0], 50),
                 [e |-> "PFrame", perf |-> "disposition", ch |-> CH, ech |-> 0,
                  f |-> [role |-> "r", first |-> [d |-> 0], last |-> [d |-> ns + 1], settled |-> TRUE, state |-> [k |-> "accepted", cond |-> "", txn |-> <<>>]]] >>
